@@ -1,5 +1,5 @@
 SPECIFICATION Spec
-CONSTANT MaxLen = 8
+CONSTANT MaxLen = 7
 CONSTANT Bytes1 = {32, 10, 13, 35, 40, 41, 47, 42, 34, 92, 120, 66}
 VIEW View
 INVARIANT NoPanicInv
